@@ -34,6 +34,7 @@ class Probes:
         self.stepno = 0
         self.cond_plan = None       # callable(cid, occurrence_index) -> bool, for C08
         self.cond_count = 0
+        self.guard_sees_actions = False
 
     def U(self):
         self.uid += 1
@@ -54,6 +55,12 @@ class Probes:
 
         def G(t, ev, tm):
             log.append(('G', t, ev_id(ev), tm))
+            if self.guard_sees_actions:
+                # a guard asked again after some action of the same call has run may well answer differently (the log is
+                # cleared before every call): the transitions of a macro step are chosen before any of them is processed
+                n_a = sum(1 for e in log if e[0] == 'A')
+                if n_a:
+                    return self.val(self.stepno, '%s#%d' % (t, n_a))
             return self.val(self.stepno, t)
 
         def K(cid, tm, old_v):
